@@ -4,13 +4,16 @@
 set -u
 P="$(realpath "$1")"; shift
 ROOT="$(cd "$(dirname "$0")/.." && pwd)"
-if ! git -C /repo diff --quiet; then echo "refusing: /repo has uncommitted changes" >&2; exit 2; fi
-if ! git -C /repo apply --check "$P" 2>/dev/null; then echo "$(basename $P) does-not-apply"; exit 2; fi
-git -C /repo apply "$P"
+REPO="${REPO_DIR:-/repo}"   # a scratch copy of the repository when the harness in $ROOT was pointed at one (bin/seed_robust.sh)
+if ! git -C "$REPO" diff --quiet; then echo "refusing: $REPO has uncommitted changes" >&2; exit 2; fi
+if ! git -C "$REPO" apply --check "$P" 2>/dev/null; then echo "$(basename $P) does-not-apply"; exit 2; fi
+git -C "$REPO" apply "$P"
 EV=$(mktemp -d); export ACBVERIF_EVIDENCE_DIR="$EV"
-trap 'git -C /repo checkout -- . ; git -C /repo clean -fdq src tests; rm -rf "$EV"' EXIT
+trap 'git -C "$REPO" checkout -- . ; git -C "$REPO" clean -fdq src tests; rm -rf "$EV"' EXIT
 for ID in "$@"; do
   out=$(VERIF_MUTANT=1 bash "$ROOT/bin/check.sh" "$ID" quick 2>&1); rc=$?
   first=$(echo "$out" | grep -m1 '^FAIL' | cut -c1-220)
+  # keep the first failing case as a regression replay when asked to
+  if [ -n "${SAVE_REGRESS_AS:-}" ] && [ $rc -eq 1 ]; then rp=$(echo "$out" | grep -m1 '^VIOLATION' | sed 's/.*replay=//'); case "$rp" in *.json) [ -f "$rp" ] && cp "$rp" "${SAVE_REGRESS_AS}";; esac; fi
   case $rc in 1) echo "$(basename $P) $ID caught :: $first";; 0) echo "$(basename $P) $ID MISSED";; *) echo "$(basename $P) $ID inconclusive(rc=$rc) :: $(echo "$out" | tail -2 | tr '\n' ' ' | cut -c1-200)";; esac
 done
